@@ -671,6 +671,14 @@ func (k *checker) cfListRoundTrip(ver string, cf *lorawan.CFList, freqs []uint32
 				maxF = f
 			}
 		}
+		// a list the CFList encoder refuses cannot travel in a join-accept either: the join-accept encoder has to refuse it
+		// too, not answer with a join-accept from which the list has silently gone
+		jd := k.b.GetDefaults()
+		ja := lorawan.JoinAcceptPayload{JoinNonce: 0x010203, HomeNetID: lorawan.NetID{1, 2, 3}, DevAddr: lorawan.DevAddr{4, 5, 6, 7},
+			DLSettings: lorawan.DLSettings{RX2DataRate: uint8(jd.RX2DataRate) & 15, RX1DROffset: 1}, RXDelay: 1, CFList: cf}
+		if jb, jerr := ja.MarshalBinary(); jerr == nil {
+			return fmt.Sprintf("%s: the CFList %+v offered for %s is refused by CFList.MarshalBinary (%v), but a join-accept carrying it encodes without error to %x (%d bytes): the channel list is lost without notice", k.where(), cf.Payload, ver, err, jb, len(jb))
+		}
 		msg := fmt.Sprintf("%s: the CFList %+v offered for %s cannot be encoded: %v", k.where(), cf.Payload, ver, err)
 		if cf.CFListType == lorawan.CFListChannel && k.isK3("CFListChannelPayload", maxF, err) {
 			k.noteK3(msg)
@@ -702,6 +710,16 @@ func (k *checker) cfListRoundTrip(ver string, cf *lorawan.CFList, freqs []uint32
 	}
 	if d := same(&back); d != "" {
 		return fmt.Sprintf("%s: CFList round trip through %x: %s", k.where(), bin, d)
+	}
+	// the decoded list is kept by value while its variable decodes the next list of the same type
+	kept := back
+	other := append([]byte{}, bin...)
+	for i := 0; i < 15; i++ {
+		other[i] ^= 0x5a
+	}
+	_ = back.UnmarshalBinary(other)
+	if d := same(&kept); d != "" {
+		return fmt.Sprintf("%s: the CFList decoded from %x was kept by value; after the same variable decoded %x the kept value reads differently: %s", k.where(), bin, other, d)
 	}
 	d := k.b.GetDefaults()
 	ja := lorawan.JoinAcceptPayload{JoinNonce: 0x010203, HomeNetID: lorawan.NetID{1, 2, 3}, DevAddr: lorawan.DevAddr{4, 5, 6, 7},
@@ -1046,7 +1064,13 @@ func newChecker(c Case) (*checker, *evid.Outcome) {
 	for _, ch := range snap.DownlinkChannels {
 		m.down = append(m.down, chRec{freq: ch.Frequency, minDR: ch.MinDR, maxDR: ch.MaxDR, enabled: ch.Enabled, custom: ch.Custom, validInput: true})
 	}
-	return &checker{c: c, b: b, m: m, tx: snap.TXPowerOffsets, cfLo: snap.CFListMinDR, cfHi: snap.CFListMaxDR, step: -1}, nil
+	// CFList channels are DR0..DR5 channels in every region with a CFList of frequencies (DR0..DR7 on 2.4 GHz), whatever
+	// the dwell-time or repeater setting (Regional Parameters; the constant is the harness's own, not the band's field)
+	cfHi := 5
+	if c.Band == "ISM2400" {
+		cfHi = 7
+	}
+	return &checker{c: c, b: b, m: m, tx: snap.TXPowerOffsets, cfLo: 0, cfHi: cfHi, step: -1}, nil
 }
 
 func checkHistory(c Case) evid.Outcome {
@@ -1392,7 +1416,7 @@ func TestProp(t *testing.T) {
 	r := evid.Begin(t, "C15")
 	defer r.Finish()
 
-	const oracle = " Oracle: a model (slice of channel records {frequency, MinDR, MaxDR, enabled, custom}; AddChannel appends an enabled=(frequency != 0) custom record to uplink and downlink tables on the 11 dynamic plans and fails without effect on US915/AU915/CN470; Disable/Enable flip one flag for 0 <= i < n and fail otherwise). After EVERY step: the five index-set getters equal the model and partition, GetUplinkChannel/GetDownlinkChannel equal the model record by record, and so does the snapshot hook (taken on the fresh band, after every successful AddChannel and on the last step) (so standard channels never change), GetUplinkChannelIndex(f, default) and GetUplinkChannelIndexForFrequencyDR(f, dr) for every channel frequency x {default, custom} x DR {min, max, min-1, max+1} return a matching channel or an error exactly when none matches (all channels on the fresh band, on the last step and after an AddChannel that repeats an existing frequency; the op's channel and the newest channel on the other steps) (a match shadowed by another custom channel on the same frequency is counted, not judged), index n (n+1 too on the fresh band, the last step and after a frequency-repeating AddChannel) and the op's own integers are probed on GetUplinkChannel/GetDownlinkChannel/GetTXPowerOffset/GetRX1DataRateIndex (error, never panic; valid ones give the model value), GetEnabledUplinkDataRates (only while all DR ranges are small) is ascending, covers the enabled channels and nothing no channel has; GetCFList for the 6 protocol versions: fixed plans nil before 1.0.3, else exactly the enabled bits; dynamic plans the first five of the custom channels with the band's CFList DR range in order (disabled ones optional; in states with a zero-frequency candidate the list is positional: exactly the first five candidates, zeros included, or nil when the first is zero), nil if none; MAC layer: default and validly added channels through NewChannelReq / DLChannelReq, RX2 default through RXParamSetupReq, ping-slot frequency through PingSlotChannelReq and BeaconFreqReq, the CFList bare and inside a JoinAcceptPayload, the planner's LinkADRReq payloads (device state = standard channels / none / all / the enabled set, one of them per step and all four on the fresh band and the last step), and the commands together in one downlink (RXParamSetupReq, PingSlotChannelReq, BeaconFreqReq, NewChannelReq and DLChannelReq of the newest and first channel - those the encoders accept - rotated by the device address, followed by the planner's LinkADRReq block: as FRMPayload of an encrypted port-0 downlink and, as many as fit 15 octets, as FOpts; frame encoded, decoded into a fresh PHYPayload, commands compared in order) - each must encode and decode to the same values (asserted only for frequencies that are valid caller input: multiple of 100 Hz in 0.1-1 GHz, multiple of 200 Hz in 2.4-2.5 GHz, or 0). ISM2400 frequencies refused with the max-value error by the five 100-Hz encoders are the known finding K3. Non-trivial: at least one successful AddChannel and one successful Disable, or a Disable/Enable with an invalid index."
+	const oracle = " Oracle: a model (slice of channel records {frequency, MinDR, MaxDR, enabled, custom}; AddChannel appends an enabled=(frequency != 0) custom record to uplink and downlink tables on the 11 dynamic plans and fails without effect on US915/AU915/CN470; Disable/Enable flip one flag for 0 <= i < n and fail otherwise). After EVERY step: the five index-set getters equal the model and partition, GetUplinkChannel/GetDownlinkChannel equal the model record by record, and so does the snapshot hook (taken on the fresh band, after every successful AddChannel and on the last step) (so standard channels never change), GetUplinkChannelIndex(f, default) and GetUplinkChannelIndexForFrequencyDR(f, dr) for every channel frequency x {default, custom} x DR {min, max, min-1, max+1} return a matching channel or an error exactly when none matches (all channels on the fresh band, on the last step and after an AddChannel that repeats an existing frequency; the op's channel and the newest channel on the other steps) (a match shadowed by another custom channel on the same frequency is counted, not judged), index n (n+1 too on the fresh band, the last step and after a frequency-repeating AddChannel) and the op's own integers are probed on GetUplinkChannel/GetDownlinkChannel/GetTXPowerOffset/GetRX1DataRateIndex (error, never panic; valid ones give the model value), GetEnabledUplinkDataRates (only while all DR ranges are small) is ascending, covers the enabled channels and nothing no channel has; GetCFList for the 6 protocol versions: fixed plans nil before 1.0.3, else exactly the enabled bits; dynamic plans the first five of the custom channels with DR 0..5 (0..7 on ISM2400; the harness's own constants) in order (disabled ones optional; in states with a zero-frequency candidate the list is positional: exactly the first five candidates, zeros included, or nil when the first is zero), nil if none; MAC layer: default and validly added channels through NewChannelReq / DLChannelReq, RX2 default through RXParamSetupReq, ping-slot frequency through PingSlotChannelReq and BeaconFreqReq, the CFList bare and inside a JoinAcceptPayload (a decoded list kept by value stays what it was while its variable decodes another list; a list the CFList encoder refuses must be refused by the join-accept encoder too), the planner's LinkADRReq payloads (device state = standard channels / none / all / the enabled set, one of them per step and all four on the fresh band and the last step), and the commands together in one downlink (RXParamSetupReq, PingSlotChannelReq, BeaconFreqReq, NewChannelReq and DLChannelReq of the newest and first channel - those the encoders accept - rotated by the device address, followed by the planner's LinkADRReq block: as FRMPayload of an encrypted port-0 downlink and, as many as fit 15 octets, as FOpts; frame encoded, decoded into a fresh PHYPayload, commands compared in order) - each must encode and decode to the same values (asserted only for frequencies that are valid caller input: multiple of 100 Hz in 0.1-1 GHz, multiple of 200 Hz in 2.4-2.5 GHz, or 0). ISM2400 frequencies refused with the max-value error by the five 100-Hz encoders are the known finding K3. Non-trivial: at least one successful AddChannel and one successful Disable, or a Disable/Enable with an invalid index."
 
 	// the K3 witness lives in this sub-check, so it runs first (the framework activates a known class when its witness fails)
 	evid.Rapid(r, t, "valid-histories",
